@@ -126,8 +126,9 @@ func checkC01(c *Ctx) {
 	}
 	// (d) reordering primitives
 	users := map[string]bool{}
-	for _, fn := range f.Prog.Funcs {
-		ir.WalkFunc(fn, func(t ir.Term) bool {
+	for _, at := range f.Attributed() {
+		fn := at.Owner
+		ir.WalkFunc(at.Body, func(t ir.Term) bool {
 			if fr, ok := t.(*ir.FuncRef); ok && (fr.Key == slicePath+".Sort" || fr.Key == slicePath+".SortBy") {
 				users[fn.Name] = true
 			}
